@@ -617,6 +617,11 @@ class PyExec:
             return list(v.keys())
         if isinstance(v, Const) and isinstance(v.v, (list, tuple, range)):
             return [Const(x) for x in v.v]
+        if isinstance(v, Ref) and self._clsname(st, v) == "$generator" and "items" in st.objs[v.oid]["fields"]:
+            # a one-shot iterator: iterating it hands out what is left and leaves nothing behind
+            f = st.objs[v.oid]["fields"]
+            left, f["items"] = list(f["items"]), ()
+            return left
         if isinstance(v, Ref):
             h = self.hooks.get(("iter", self._clsname(st, v)))
             if h:
@@ -1636,6 +1641,24 @@ class PyExec:
                 sym = st.new_obj("$symrange", {"args": tuple(args)})
                 return [("val", sym, st)]
             return [("val", [Const(i) for i in range(*c)], st)]
+        if name == "iter" and len(args) == 1:
+            v = args[0]
+            if isinstance(v, Ref) and self._clsname(st, v) == "$generator":
+                return [("val", v, st)]  # iter(it) is it
+            if isinstance(v, (list, tuple)):
+                return [("val", st.new_obj("$generator", {"items": tuple(v)}), st)]  # a fresh iterator over the sequence
+            raise Unsupported("iter() of %r" % (v,))
+        if name == "next" and args:
+            v = args[0]
+            if isinstance(v, Ref) and self._clsname(st, v) == "$generator" and "items" in st.objs[v.oid]["fields"]:
+                f = st.objs[v.oid]["fields"]
+                if f["items"]:
+                    first, f["items"] = f["items"][0], tuple(f["items"][1:])
+                    return [("val", first, st)]
+                if len(args) > 1:
+                    return [("val", args[1], st)]
+                return [("raise", Const(StopIteration), st)]
+            raise Unsupported("next() of %r" % (v,))
         if name == "enumerate":
             items = self.iter_items(args[0], st)
             return [("val", [(Const(i), x) for i, x in enumerate(items)], st)]
@@ -1752,6 +1775,8 @@ class PyExec:
                 w, sg = DT[src.dtype]
                 st.pc += [m >= 0, m < (1 << w)]
             return [("val", Sym(m, src.dtype if src.dtype in DT else "int"), st)]
+        if name == "arr.copy":
+            return [("val", Arr(selfv.dtype, selfv.shape, buf=None, data=uid("copy_of_" + selfv.data)), st)]
         if name in ("arr.any", "arr.all") and not args and not kwargs:
             # a named predicate of the array's contents (same array value, same term): nothing else
             # is known about it, so both outcomes are explored
